@@ -412,4 +412,85 @@ def toAstWrapper (c : Ctx) (ty : String) : Option String := (c.toAst.find? (·.t
 /-- the bare slice struct an empty struct def stands for -/
 def sliceStruct : StructDef := { name := "", fields := [{ name := "X", cls := .childList, gty := "[]Node" }], impls := [] }
 
+/-! ## converters of unwrap.go (regenerated case tables) -/
+
+inductive ConvAct where
+  | ident    -- `return node` / `return x.X`: the argument itself
+  | retNil   -- `break` / empty / `return nil`
+  | other    -- a conversion or an error
+  deriving DecidableEq, Repr
+
+structure ConvDef where
+  name : String
+  onNode : Bool                          -- `switch node := ToNode(x).(type)` (else `switch x := x.(type)`)
+  cases : List (List String × ConvAct)   -- in source order; "default" for the default clause
+  understood : Bool
+  why : String
+  deriving Repr
+
+/-- Go's type switch: the first non-default clause with a matching type, else `default`,
+    else control falls out of the switch (to the trailing `return nil`). -/
+def firstAct (cases : List (List String × ConvAct)) (m : String → Bool) : ConvAct :=
+  match cases.find? (fun c => c.1.any (fun t => t != "default" && m t)) with
+  | some c => c.2
+  | none =>
+    match cases.find? (fun c => c.1.contains "default") with
+    | some c => c.2
+    | none => .retNil
+
+/-- dynamic struct types a non-nil value of static type `gty` can have -/
+def dynTypes (structs : List StructDef) (gty : String) : List StructDef :=
+  if isPtrTy gty then structs.filter (fun sd => "*" ++ sd.name == gty)
+  else if gty == "Node" then structs
+  else structs.filter (fun sd => sd.impls.contains gty)
+
+def caseMatchesNode (sd : StructDef) (t : String) : Bool :=
+  t == "*" ++ sd.name || t == "Node" || sd.impls.contains t
+
+def caseMatchesWrapper (ws : List Wrapper) (wname t : String) : Bool :=
+  t == wname || t == "Ast" ||
+  (t == "AstWithNode" && ws.any (fun w => w.name == wname && w.node != "")) ||
+  (t == "AstWithSlice" && ws.any (fun w => w.name == wname &&
+      (match w.kind with | .list _ _ _ _ => true | .slice _ _ _ _ => true | _ => false)))
+
+/-- Is converter `conv`, applied to what `Get` produces (through `via`) from a field of static type
+    `gty`, the identity?  Decided on the regenerated case tables: nil goes to nil, and for every
+    dynamic type the field can hold the first matching clause returns the argument itself.
+    `ToNode` is `x.Node()`, which every wrapper implements as `asNode(x.X, x.X == nil)`. -/
+def convJustified (c : Ctx) (ws : List Wrapper) (convs : List ConvDef) (conv gty via : String) : Bool :=
+  if conv == "self" then gty == "Ast"
+  else if conv == "ToNode" then gty == "Node"
+  else
+    match convs.find? (·.name == conv) with
+    | none => false
+    | some cd =>
+      cd.understood && firstAct cd.cases (· == "nil") == .retNil &&
+      (if gty.startsWith "[]" then
+         !cd.onNode && firstAct cd.cases (caseMatchesWrapper ws via) == .ident
+       else
+         let dts := dynTypes c.structs gty
+         !dts.isEmpty && dts.all (fun sd =>
+           if cd.onNode then firstAct cd.cases (caseMatchesNode sd) == .ident
+           else
+             match toAstWrapper c sd.name with
+             | some wn => firstAct cd.cases (caseMatchesWrapper ws wn) == .ident
+             | none => true))
+
+/-- (converter, static type of the child, wrapper it arrives in) for every write of the table -/
+def usedConvs (sdOf : Wrapper → StructDef) (ws : List Wrapper) : List (String × String × String) :=
+  ws.flatMap (fun w =>
+    let sd := sdOf w
+    match w.kind with
+    | .fixed => w.arms.flatMap (fun arm =>
+        match arm.get, arm.set with
+        | .read _ via _, .writes wr => wr.filterMap (fun x =>
+            match x.kind with
+            | .conv cv => some (cv, writeTy sd arm.get x, via)
+            | .nonNil cv => some (cv, writeTy sd arm.get x, via)
+            | .opq _ => none)
+        | _, _ => [])
+    | .list f gv sc ac => [(sc, elemTyOf (sd.gtyOf f), gv), (ac, elemTyOf (sd.gtyOf f), gv)]
+    | .slice ety gv sc ac => [(sc, ety, gv), (ac, ety, gv)]
+    | .opq _ => [])
+
 end Ast2
